@@ -186,6 +186,17 @@ PROPS = {
              "every cut 1 <= k < len (CTE: before the final closer); distinct by document bytes; non-trivial = longer than 3 bytes",
         trusted_base=COMMON_TB + ["the value-level prefix order (harness/run_trunc.go isPrefixValue) is Go code, not Lean"],
     ),
+    "C16": dict(
+        claim="Lean model of the per-session type caches (GetIteratorForType / GetBuilderGeneratorForType: Load, LoadOrStore of a WaitGroup placeholder, generate, Done, Store, and the failure branch) as a transition system over any number of goroutines; "
+              "theorems for every history of calls in every interleaving: at any moment with no call in flight the cache entry is never a placeholder (quiescent_cache_has_no_placeholder), and after failed generations (unsupported kinds) it is exactly what a fresh session holds (failed_generation_leaves_fresh_cache); the model of the code before fix e509a33 is shown by `decide` to violate both. "
+              "Regenerated facts (CE/Gen/Session.lean, proved equal to the model's expectations in CE/Gen/CheckSession.lean on every run): the protocol operations of both cache functions in source order, and for each per-document reset point (cbe Reader.SetReader, cbe Encoder.PrepareToEncode, rules Context.Reset, cte EncoderContext.Begin) the struct's fields and the fields the reset point assigns, which must cover the fields that influence the next document. "
+              "Harness: histories of 2-8 operations on one marshaler / unmarshaler / decoder / event-level encoder / validator (valid and invalid documents and values, unsupported and never-seen types, documents near MaxDocumentSizeBytes, encoders abandoned mid-document, streams rejected by the validator then Reset) compared call by call with fresh instances, with a watchdog for calls that never return",
+        note="partial: the reset points are tied by extracted field facts + the history oracle, not by a theorem over a model of each component; marshaler outputs that differ only in Go's random map iteration order are compared as data (Lean TREE.EQ). Event-level encoders are exercised with valid streams and abandoned prefixes only (their behaviour on invalid event sequences is unspecified)",
+        level="proof", n_quick=2400, n_thorough=120000, shards=16, timeout_quick=600,
+        lean_modules=["CE.Props.C16", "CE.Cache.Proofs", "CE.Gen.CheckSession"],
+        rule="case i: instance kind i mod 12; 2-8 operations drawn per kind (see harness/run_reuse.go); distinct by kind + operation descriptions; non-trivial = at least 2 operations",
+        trusted_base=COMMON_TB + ["extract/main.go cacheproto/resetfacts: go/ast reading of the cache functions and reset points", "sync.Map and sync.WaitGroup are assumed linearizable (Go runtime)"],
+    ),
     # NEW-ENTRIES-ABOVE
 }
 
